@@ -359,7 +359,9 @@ def fixed_rows(fixed_source, encoding, field_name_and_lengths, line_delimiter="a
         return result
 
     if isinstance(fixed_source, str):
-        fixed_file = io.open(fixed_source, "r", encoding=encoding)
+        # Use newline="" to prevent universal newlines from translating "\r" and "\r\n" to "\n",
+        # which would break data using these as explicitly declared line delimiter.
+        fixed_file = io.open(fixed_source, "r", encoding=encoding, newline="")
         is_opened = True
     else:
         fixed_file = fixed_source
